@@ -60,5 +60,53 @@ def quietRunB : List Block → App → CSet → Bool
      | .error _ => true)
 
 
+/-! ### the wider class: removals included (hypotheses of the envelope theorem of Lemmas/Quiet2) -/
+
+def fits2B (s : App) (c : CSet) : Bool :=
+  decide (s.index.length ≤ s.params.maxVals) && noShadow s s.index && decide (Comet.total c + idxPow s s.index ≤ maxTotalPower) &&
+  decide (0 ≤ s.lastTotal) && decide (s.lastTotal ≤ maxTotalPower)
+
+def quietTx2B (s : App) (incs : List (Signer × Nat)) (tx : Tx) : Bool :=
+  decide ((runTx genEnv s incs tx).2.1 = s) ||
+  match tx.signer, tx.msgs with
+  | .admin, [.setPower (some op) p _] =>
+    (runTx genEnv s incs tx).1 != TxR.ok || (s.pendingFind op).isSome ||
+      ((match s.getVal op with | some v => decide (powerOf v.tokens > 0) | none => true) &&
+        !s.updated.contains op && !s.index.contains (p / PR, op))
+  | _, [.remove (some op)] =>
+    (runTx genEnv s incs tx).1 != TxR.ok ||
+      (match s.getVal op with
+       | some v => decide (powerOf v.tokens > 0) && !s.updated.contains op && s.index.contains (powerOf v.tokens, op)
+       | none => false)
+  | _, [.create _] => true
+  | _, [.rmPending _] => true
+  | _, [.params _] => true
+  | _, _ => false
+
+def quietTxs2B : List Tx → App → List (Signer × Nat) → Bool
+  | [], _, _ => true
+  | tx :: rest, s, incs => quietTx2B s incs tx && quietTxs2B rest (runTx genEnv s incs tx).2.1 (runTx genEnv s incs tx).2.2
+
+def quietBlock2B (s : App) (c : CSet) (b : Block) : Bool :=
+  (match slashingBegin b.votes { s with height := s.height + 1, time := s.time + b.dt } with
+   | .ok s1 =>
+     decide (s1 = { s with height := s.height + 1, time := s.time + b.dt, infos := s1.infos, bitmap := s1.bitmap }) &&
+     s.vals.all (fun v => (alookup v.key s1.infos).isSome)
+   | .error _ => false) && b.evid.isEmpty &&
+  (match beginState genEnv s b with
+   | .ok s2 => quietTxs2B b.txs s2 [] && fits2B (runTxs genEnv b.txs s2 [] []).2 c
+   | .error _ => true)
+
+def quietRun2B : List Block → App → CSet → Bool
+  | [], _, _ => true
+  | b :: bs, s, c =>
+    quietBlock2B s c b &&
+    (match block genEnv s b with
+     | .ok (o, s') =>
+       (match Comet.applyChangeSet c o.updates with
+        | .ok c' => quietRun2B bs s' c'
+        | .error _ => true)
+     | .error _ => true)
+
 end App
 end PoaVerif
